@@ -561,16 +561,13 @@ func (s *SpecValidator) validateRequiredDefinitions() *Result {
 	// Each property listed in the required array must be defined in the properties of the model
 	res := pools.poolOfResults.BorrowResult()
 
-DEFINITIONS:
 	for d, schema := range s.spec.Spec().Definitions {
 		if schema.Required != nil { // Safeguard
 			for _, pn := range schema.Required {
 				red := s.validateRequiredProperties(pn, d, &schema) //#nosec
-				isValid := red.IsValid() // red is redeemed to the pool when merged: check it beforehand
+				// NOTE: every definition is checked, also when not continuing on errors: stopping at
+				// the first faulty one reported a different error on each run (map iteration order)
 				res.Merge(red)
-				if !isValid && !s.Options.ContinueOnErrors {
-					break DEFINITIONS // there is an error, let's stop that bleeding
-				}
 			}
 		}
 	}
